@@ -165,6 +165,6 @@ example : secretsF deep = [1, 2, 4, 5] := by simp [deep, secretsF, secretsV, sec
 set_option maxRecDepth 100000 in
 /-- the code this property's model mirrors still has the shape the model was written against (control-flow
     skeletons regenerated from /repo on every run, Model/SkeletonsMore) -/
-theorem facts_model_skeleton : Generated.F12.secure = SkeletonsMore.secure := by decide +kernel
+theorem facts_model_skeleton : Generated.F12.secure = SkeletonsMore.secure := by rfl
 
 end Coercion.C17
